@@ -1108,6 +1108,84 @@ example (x : Array ℚ) (hx : x.size = 12) (fftw plus : Bool) :
   have : a = 2 ∨ a = 0 := by simpa using ha
   rcases this with rfl | rfl <;> exact ⟨by simpa using h2, by norm_num⟩
 
+/-- **The continuous-FT approximation in n dimensions recovers its input through its inverse,
+any number of axes, any shift tuple** (full-complex case; the executed per-axis definitions
+`ftForwardSepNd` / `ftInverseSepNd`, compared with `FourierTransform` / `FourierTransformInverse` in
+the stream `ft/model-variant=sep`).  For every shape, duplicate-free in-range axes list, per-axis
+shift choice (`shifts = axes.map shiftOf`), sign, grid offsets `t`, reciprocal nodes `c`, phase
+function `e`, kernel factors `amp` non-vanishing on the transformed axes, primitive roots of unity
+for the transformed lengths, and EVERY array: forward followed by the inverse with the flipped sign
+returns `(shape, x)` exactly.  Both run last axis first, so the proof reorders the inverse steps with
+`along_axis_commute` and telescopes with `ft_inverse`.  (The code stages pre-processing / FFT /
+post-processing over all axes — `ftForwardNd`; that staging and the half-complex case have no
+composition theorem.) -/
+theorem C18.ft_nd_inverse {K : Type} [Field K] [Inhabited K] (e : Rat → K) (he : IsPhase e)
+    (roots : Nat → Option (K × K)) (w : Nat → K) (hroots : ∀ n, roots n = some (w n, (w n)⁻¹))
+    (amp : Nat → Nat → K) (c : Nat → Nat → Rat) (t : Nat → Rat) (plus : Bool)
+    (rshape axes : List Nat) (shiftOf : Nat → Bool) (hnd : axes.Nodup)
+    (hin : ∀ a ∈ axes, a < rshape.length)
+    (hprim : ∀ a ∈ axes, IsPrimRoot (w (rshape.getD a 1)) (rshape.getD a 1) ∧
+      ((rshape.getD a 1 : Nat) : K) ≠ 0)
+    (hamp : ∀ a ∈ axes, ∀ j, j < rshape.getD a 1 → amp a j ≠ 0)
+    (x : Array K) (hx : x.size = OdlModel.Wavelet.prod rshape) :
+    (ftForwardSepNd roots e amp c t plus rshape axes (axes.map shiftOf) x).bind
+        (fun r => ftInverseSepNd roots e amp c t (!plus) rshape axes (axes.map shiftOf) r.2)
+      = some (rshape, x) := by
+  have hr : roots = fun n => some (w n, (w n)⁻¹) := funext hroots
+  subst hr
+  rw [(ftSep_eq w e amp c t plus rshape axes shiftOf x).1, Option.bind_some,
+    (ftSep_eq w e amp c t (!plus) rshape axes shiftOf _).2]
+  congr 1
+  set n : Nat → Nat := fun a => rshape.getD a 1 with hn
+  set Fn : Nat → (Nat → K) → Nat → K := fun a =>
+    ftForwardAxis e (amp a) (c a) (t a) (shiftOf a) plus (w (n a)) (w (n a))⁻¹ (n a) with hFn
+  set Gn : Nat → (Nat → K) → Nat → K := fun a =>
+    ftInverseAxis e (amp a) (c a) (t a) (shiftOf a) (!plus) (w (n a)) (w (n a))⁻¹ (n a) with hGn
+  have hax : ∀ a ∈ axes, 0 < n a ∧ ((n a : Nat) : K) ≠ 0 ∧ IsPrimRoot (w (n a)) (n a) := by
+    intro a ha
+    obtain ⟨p1, p2⟩ := hprim a ha
+    refine ⟨?_, p2, p1⟩
+    rcases Nat.eq_zero_or_pos (n a) with h0 | h0
+    · exfalso; apply p2; simp only [hn] at h0; rw [h0]; simp
+    · exact h0
+  rw [applyAxes_eq_foldl, applyAxes_eq_foldl]
+  have hlen : ∀ a ∈ axes, rshape.getD a 1 = n a := fun _ _ => rfl
+  obtain ⟨hs1, hs2⟩ := fold_shape axes.reverse rshape n Fn (fun b hb => hin b (by simpa using hb))
+    (fun b hb => hlen b (by simpa using hb)) x hx
+  set Y := (axes.reverse.map fun a => ((a, n a, Fn a) : Step K)).foldl stepFn (rshape, x) with hY
+  have hYeq : (rshape, Y.2) = Y := Prod.ext hs1.symm rfl
+  rw [fold_reverse axes rshape n Gn _
+    (fun a => ftInverseAxis_isMat e (amp a) (c a) (t a) (shiftOf a) (!plus) _ _ (n a)) hnd hin hlen Y.2,
+    hYeq, hY]
+  refine middle_cancel axes rshape n Fn Gn hin hlen ?_ ?_ x hx
+  · intro a _ f g hfg k
+    simp only [hGn]
+    unfold ftInverseAxis
+    rw [dftInverseNp_congr (!plus) _ _ (n a) _ _ (fun j hj => by rw [hfg j hj]) k]
+  · intro a ha f k hk
+    obtain ⟨hpos, hnK, hw⟩ := hax a ha
+    exact C18.ft_inverse e he (w (n a)) (n a) hpos hnK hw (amp a) (hamp a ha) (c a) (t a)
+      (shiftOf a) plus f k hk
+
+/-- Non-vacuity (hypotheses satisfiable; a non-trivial `IsPhase` over `ℂ` is exhibited below): shape
+`(2, 3, 2)`, axes `(2, 0)` with shifts `(true, false)`, `w = -1`, kernel factors `j + 2`. -/
+example (x : Array ℚ) (hx : x.size = 12) (plus : Bool) (c : Nat → Nat → Rat) (t : Nat → Rat) :
+    (ftForwardSepNd (fun n => some (if n = 2 then (-1 : ℚ) else 1, (if n = 2 then (-1 : ℚ) else 1)⁻¹))
+        (fun _ => 1) (fun _ j => (j : ℚ) + 2) c t plus [2, 3, 2] [2, 0] ([2, 0].map (· == 2)) x).bind
+      (fun r => ftInverseSepNd (fun n => some (if n = 2 then (-1 : ℚ) else 1, (if n = 2 then (-1 : ℚ) else 1)⁻¹))
+        (fun _ => 1) (fun _ j => (j : ℚ) + 2) c t (!plus) [2, 3, 2] [2, 0] ([2, 0].map (· == 2)) r.2)
+      = some ([2, 3, 2], x) := by
+  have h2 : IsPrimRoot (-1 : ℚ) 2 := ⟨by norm_num, by
+    intro d hd hd2; have : d = 1 := by omega
+    subst this; norm_num⟩
+  refine C18.ft_nd_inverse (fun _ => 1) ⟨fun _ _ => by norm_num, rfl⟩ _
+    (fun n => if n = 2 then (-1 : ℚ) else 1) (fun _ => rfl) _ c t plus
+    [2, 3, 2] [2, 0] (· == 2) (by decide) (by decide) ?_ ?_ x (by simpa [OdlModel.Wavelet.prod] using hx)
+  · intro a ha
+    have : a = 2 ∨ a = 0 := by simpa using ha
+    rcases this with rfl | rfl <;> exact ⟨by simpa using h2, by norm_num⟩
+  · intro a _ j _; positivity
+
 /-- Non-vacuity of `IsPhase`: `q ↦ exp(iπ q)` over `ℂ` is a phase function, and it is not
 trivial (`e 1 = -1`). -/
 example : IsPhase (fun q : Rat => Complex.exp (Real.pi * Complex.I * (q : ℂ))) ∧
